@@ -118,7 +118,7 @@ CLAIMED["C38"] = dict(
 CLAIMED["C02"] = dict(
     level="translation_validation", design="§4 C02/C03, §11",
     text="The REAL optimisation passes (each of the 9 passes alone, pass sequences, api.optimize levels) run on IR from two stated families: C functions through the real C front end (corpus/cprogs.py: arithmetic, loops, switch, globals, arrays, structs, pointer args, calls, tail calls, externals) and all CFG skeletons over <=3 blocks (thorough: + 80 sampled 4-block ones) in SSA form with phis, self loops and double edges (corpus/irprogs.py); for value-dependent passes the IR constants are SYMBOLIC so rewrites fork inside the real pass. The reference IR semantics (ref/irsem.py) of the module before and after are compared by z3 for ALL argument vectors, initial global contents, bytes behind pointer arguments and external-call results: same return value, same visible memory, same external call trace, under the premise that the original execution is defined.",
-    note="Trusted: z3, ref/irsem.py (wrap-around, truncating / %, explicit memory regions with pointer provenance; accesses outside the object a pointer was derived from are UB = premise), the engine. Loops unwound to 140 (thorough 300) IR instructions, call depth 3: longer executions are cut and counted, never claimed. Outside: floats, external functions that write memory visible to the caller, programs beyond the two families, 8 'heavy' corpus programs in the quick tier.",
+    note="Trusted: z3, ref/irsem.py (wrap-around, truncating / %, explicit memory regions with pointer provenance; accesses outside the object a pointer was derived from are UB = premise), the engine. Loops unwound to 140 (thorough 300) IR instructions, call depth 3: longer executions are cut and counted, never claimed. External calls: symbolic results plus a symbolic XOR-havoc of all memory an external can name (globals, buffers, escaped locals). Outside: floats, programs beyond the two families, 8 'heavy' corpus programs in the quick tier.",
     technique=TECH_TV)
 CLAIMED["C03"] = dict(
     level="model_checking", design="§4 C02/C03, §11",
